@@ -53,6 +53,23 @@ def run(tier, rep):
                        "summary": "csv2 table (decl %s, cols %s, delimiter %r): observed records / end (%s %s) differ from the reference" % (
                            ev.get("decl"), ev.get("cols"), ev.get("delim"), ev.get("end"), ev.get("detail")),
                        "event": {k: ev.get(k) for k in ("decl", "cols", "end", "detail", "delim")}, "first_lines": ev.get("lines", [])[:6], "first_obs": ev.get("obs", [])[:3]})
+    # legacy csv: header_row_index / data_row_index are physical line numbers (CsvSkip.tla): the code's loop against the fold
+    # over records, the design that counts one line per record refuted, every case on the real reader
+    r = vlib.tlc("MC_CsvSkip", "MC_CsvSkip.cfg", consts={"MaxLen": "5" if thorough else "4", "MaxRow": "5" if thorough else "4", "EmitCases": "TRUE", "PerRead": "FALSE"}, timeout=3000)
+    rep.add_tlc("MC_CsvSkip", r)
+    if not vlib.tlc_ok(r, "MC_CsvSkip") or not r.cases:
+        raise vlib.Inconclusive("CsvSkip.tla: the loop and the fold disagree (%s) or no cases: specification problem" % r.violated)
+    p = os.path.join(vlib.scratch(), "c06.csvskip.ndjson")
+    vlib.write_ndjson(p, r.cases)
+    del r.cases[:]
+    recs, _ = vlib.run_vh(["c06-csvskip", p], timeout=3000)
+    handle(rep, recs)
+    os.remove(p)
+    if thorough:
+        r = vlib.tlc("MC_CsvSkip", "MC_CsvSkip.cfg", consts={"MaxLen": "3", "MaxRow": "4", "EmitCases": "FALSE", "PerRead": "TRUE"}, timeout=3000)
+        if r.violated != "Agree":
+            raise vlib.Inconclusive("CsvSkip.tla does not refute the design that counts one line per record read (got %s)" % r.violated)
+        rep.notes.append("MC_CsvSkip with PerRead = TRUE is refuted (Agree), as it must be")
     rep.cov["rule"] = ("B1: every table of <=3/4 lines over 13 line forms (blank, 1-2 fields, header/footer markers) x 4 record declarations (rows 1/2, "
                        "header only, header+footer) x 5 column sets (plain, line_index, line_pattern, beyond the row, duplicates); TLC checks the csv2 buffer "
                        "model = reference; each case replayed on csv2, fixedlength2, legacy fixed-length and legacy csv with seeded delimiter "
